@@ -298,7 +298,7 @@ def rand_table(rng, nops, kinds=c02.KINDS, selfw=1.0):
         if k_ == "hashset":
             cands += ["appendall", "appendall", "rmall", "rmall"]
             selfc += ["appendself", "appendself", "rmself"]
-        cands += ["swap", "swap"]
+        cands += ["swap", "swap", "clear"]
         op = rng.choice(selfc) if rng.random() < 0.2 * selfw else rng.choice(cands)
         if op in ("append", "prepend"):
             ops.append("%s %d %d %d 0" % (op, i, k, v))
@@ -509,19 +509,22 @@ def layer2_array(ctx, prop, binary, cfg, tag, workers=4):
     check(ctx, prop, "seq", binary, [arr0 + [c03.label_to_op(*st) for st in w] for w in walks], "graph_" + tag)
 
 
-def model_runs(ctx, quick):
+def model_runs(ctx, quick, bugs):
     """the stand-alone model of the ghost specifications: the constructive reference machine satisfies the Lifetime and
-    Stability predicates in every reachable state / step; every seeded bug of the machine violates them"""
-    if not os.path.exists(os.path.join(SPECDIR, "LifetimeModel.tla")):
-        return
+    Stability predicates in every reachable state / step (thorough: with action coverage); every seeded bug of the
+    machine violates them (TLC must report a violation)"""
+    import re
     r = vlib.tlc(SPECDIR, "LifetimeModel", "LifetimeModel_small.cfg" if quick else "LifetimeModel.cfg", workers=4,
-                 timeout=1500, xmx="4g", coverage=True)
+                 timeout=1500, xmx="4g", coverage=not quick)
     ctx.add_tlc("LifetimeModel", r)
-    if r.ok and r.coverage:
-        never = [a for a in MODEL_ACTIONS if r.coverage.get(a, 0) == 0]
+    if r.ok and not quick:
+        cov = {}
+        for m in re.finditer(r"^<(\w+) line [^>]*of module LifetimeModel[^>]*>: (\d+):(\d+)", r.out, flags=re.M):
+            cov[m.group(1)] = max(cov.get(m.group(1), 0), int(m.group(2)))
+        ctx.notes["model_action_coverage"] = {a: cov.get(a, 0) for a in MODEL_ACTIONS}
+        never = [a for a in MODEL_ACTIONS if cov.get(a, 0) == 0]
         if never:
             ctx.broken.append("LifetimeModel: actions never taken: %s" % never)
-    bugs = MODEL_BUGS if not quick else MODEL_BUGS[:0]
     with ThreadPoolExecutor(max_workers=4) as ex:
         res = list(ex.map(lambda b: vlib.tlc(SPECDIR, "LifetimeModel", "LifetimeModel_bug_%s.cfg" % b, workers=1, timeout=600,
                                              xmx="2g"), bugs))
@@ -534,8 +537,9 @@ def model_runs(ctx, quick):
 
 MODEL_ACTIONS = ["Insert", "InsertOwn", "Overwrite", "Remove", "Clear", "CopyCtor", "Assign", "AssignSelf", "AppendAll",
                  "AppendSelf", "Swap", "Reserve", "Fini", "NewVar"]
-MODEL_BUGS = ["shallowCopy", "noSelfCheck", "leakTemp", "clearNoKill", "doubleKill", "valueAfterReserve", "rotateCopies",
-              "swapCopies", "poolTemp"]
+MODEL_BUGS = {"C04": ["shallowCopy", "noSelfCheck", "leakTemp", "clearNoKill", "doubleKill", "valueAfterReserve", "rotateCopies",
+                      "swapCopies"],
+              "C05": ["rotateCopies", "swapCopies", "poolTemp", "swapMoves"]}
 
 
 # ---------------------------------------------------------------------------------------------
@@ -604,8 +608,7 @@ def vacuity(ctx, prop):
 def run_prop(ctx, prop, rule):
     bins = build()
     vlib.graphwalk_bin()
-    if prop == "C04" or not ctx.quick:
-        model_runs(ctx, ctx.quick)
+    model_runs(ctx, ctx.quick, MODEL_BUGS[prop])
     sts = stages(ctx, prop, bins)
     with ThreadPoolExecutor(max_workers=4 if ctx.quick else 3) as ex:
         list(ex.map(lambda f: f(), sts))
